@@ -389,6 +389,24 @@ def out6(units, R):
                     w = wb[0]
                     i = acc[1]
                     if not isinstance(i, int):
+                        # w[v + c1] = r[v + c2] with the same unchanged counter v on both sides: the store lands c1 - c2 bytes from
+                        # the byte being read, plus the distance between the two bases
+                        def var_const(ix):
+                            ix = strip_casts(ix)
+                            c_ = 0
+                            while ix.get('k') == 'bin' and ix['op'] in ('+', '-') and const_val(ix['r']) is not None:
+                                c_ += const_val(ix['r']) if ix['op'] == '+' else -const_val(ix['r'])
+                                ix = strip_casts(ix['l'])
+                            return (ix['d'], c_) if ix.get('k') == 'ref' and ix.get('dk') in ('local', 'param') else None
+                        wi = var_const(i)
+                        racc = access(strip_casts(ev.rhs)) if (ev.rhs is not None and strip_casts(ev.rhs).get('k') in ('idx', 'un')) else None
+                        ri = var_const(racc[1]) if (racc is not None and not isinstance(racc[1], int)) else None
+                        rb = cd.norm(racc[0]) if racc is not None else None
+                        if wi and ri and wi[0] == ri[0] and rb and rb[1] != 'nonneg' and wb[1] != 'nonneg' and cd.get(D, rb[0], w) > NEG and \
+                                wi[1] + wb[1] <= ri[1] + rb[1] + cd.get(D, rb[0], w):
+                            obs[ev.node['id']] = (True, 'copies %s[v%+d] to %s[v%+d] with the same counter: not beyond the byte being read (lag %d)'
+                                                  % (rb[0], ri[1], w, wi[1], cd.get(D, rb[0], w)), ev.node)
+                            return
                         obs[ev.node['id']] = (False, 'store at a computed index of the in-place write cursor', ev.node)
                         return
                     i = i + wb[1]
